@@ -46,3 +46,4 @@ CFG = dict(
 
 CFG["rule"] += " imode also r<hex> / k<hex>: a unary interceptor that answers with a message of its own after / instead of calling the handler (local and proxied). C18B: HTTP replies that are google.api.HttpBody messages (unary, server stream, response_body selecting an HttpBody field), judged by trace_ok alone. C18Q: a proxied client-streaming / bidi call whose backend returns after the first message while the client's second message becomes readable exactly when the stats handler is told End (nothing may be reported after End), judged by trace_ok alone."
 CFG["rule"] += ' C18Z also: failing handlers (io.EOF, context.Canceled, plain error, status) over gRPC and gRPC-web with the error required in End, and a request whose query is refused after routing.'
+CFG["rule"] += ' The recording stats handler keeps every event object it is handed and formats each again after the RPC: an event that reads differently later (token R:<then>><now>) fails. It also masks its InHeader event (deletes x-c18-probe, plants x-c18-planted): interceptors and handlers must still see the request metadata as sent (tokens u!md / s!md / !md). C18Z also: handlers that SetHeader under a key that cannot be sent (hkey, +hkey) over gRPC and gRPC-web.'
